@@ -5,7 +5,8 @@ spec/ElidedListTrace.tla  evaluates C05 on every observation
 """
 from .. import core
 
-THRU = [" - ", "-", " – ", " through ", " thru ", " thru. ", " to ", " Through ", " THROUGH ", " Thru ", " THRU ", " To ", " TO "]
+THRU = [" - ", "-", " – ", " through ", " thru ", " thru. ", " to ", " Through ", " THROUGH ", " Thru ", " THRU ", " To ", " TO ",
+        "-\n", " -\n", " through\n", "\nthru "]        # (a list wrapped over two lines)
 AND = [", ", " and ", " & ", ", and ", ",", " And ", " AND "]
 SEC_WORDS = [("Sec", "Secs"), ("Sec.", "Secs."), ("Section", "Sections"), ("Sect.", "Sects."), ("§", "§§")]
 SEC_REPEAT = ["Sec", "Sec.", "Section", "Sect.", "§"]
